@@ -43,6 +43,18 @@ def make_frame(f, fwc=1e5):
         return np.zeros((rows, cols))
     if k == "uniform":
         return np.full((rows, cols), float(f["level"]))
+    if k == "hot_far":  # a compact faint source in an otherwise empty frame, in the part of the long axis that is far from the output node
+        a = np.zeros((rows, cols))
+        along_rows = rows >= cols
+        n_long = rows if along_rows else cols
+        i0 = min(n_long - 1, int(0.5 * n_long) + rng.randint(max(1, int(0.3 * n_long))))  # (trailing pixels remain behind it to receive what is released)
+        for d in range(1 + rng.randint(3)):
+            i = min(n_long - 1, i0 + d)
+            if along_rows:
+                a[i, :] = float(f["level"]) + 1.0
+            else:
+                a[:, i] = float(f["level"]) + 1.0
+        return a
     if k == "hot":
         a = np.zeros((rows, cols))
         a[rng.randint(rows), rng.randint(cols)] = float(f["level"]) + 1.0
@@ -233,14 +245,31 @@ def body_ipc(case, rec):
 @st.composite
 def cdm_cases(draw):
     n = draw(st.integers(1, 5))
-    return {"pixel": draw(frames(hi=2e5)), "direction": draw(st.sampled_from(["parallel", "serial"])),
-            "beta": draw(st.one_of(st.sampled_from([0.0, 1.0, 0.3, 0.37]), st.floats(0.0, 1.0))),
-            "tr": draw(st.lists(st.floats(1e-6, 10.0), min_size=n, max_size=n)),
-            "nt": draw(st.lists(st.one_of(st.just(0.0), st.floats(0.0, 200.0)), min_size=n, max_size=n)),
-            "sigma": draw(st.lists(st.one_of(st.just(0.0), st.floats(1e-20, 1e-12)), min_size=n, max_size=n)),
-            "fwc": draw(st.one_of(st.sampled_from([1e5, 1e7, 1.0]), st.floats(1.0, 1e7))),
-            "vg": draw(st.one_of(st.sampled_from([1.62e-10, 1.0]), st.floats(1e-12, 1.0))),
-            "t": draw(st.one_of(st.sampled_from([9.4722e-4, 10.0]), st.floats(1e-6, 10.0))),
+    regime = draw(st.sampled_from(["nominal", "nominal", "heavy_damage"]))
+    direction = draw(st.sampled_from(["parallel", "serial"]))
+    if regime == "heavy_damage":
+        # faint packets, many transfers away from the output node of a heavily damaged device: of the order of one trap per pixel and species
+        # (density x electron-cloud volume) and capture cross-sections large enough that every species alone would take most of a packet
+        px = draw(frames(max_dim=5, hi=60.0))
+        px["rows" if direction == "parallel" else "cols"] = draw(st.integers(40, 120))
+        px["kind"] = draw(st.sampled_from(["uniform", "random", "hot", "hot_far", "hot_far", "hot_far"]))  # a compact source in an empty frame: empty traps ahead of it
+        vg = draw(st.one_of(st.just(1.62e-10), st.floats(1e-10, 1e-9)))
+        nt_list = [draw(st.one_of(st.floats(0.5, 10.0), st.floats(10.0, 300.0), st.floats(10.0, 300.0))) / vg for _ in range(n)]
+        sigma_list = [draw(st.one_of(st.just(1e-10), st.floats(1e-12, 1e-9))) for _ in range(n)]
+        fwc, t = draw(st.sampled_from([1e5, 1e4, 2e5])), draw(st.one_of(st.just(1e-3), st.floats(1e-4, 1e-2), st.floats(1e-3, 1e-2)))
+        beta = draw(st.one_of(st.sampled_from([0.3, 0.37]), st.floats(0.1, 0.6)))
+        tr_list = [draw(st.one_of(st.floats(1.0, 30.0).map(lambda k, t=t: k * t), st.floats(1e-6, 10.0))) for _ in range(n)]  # mostly released again within the read-out
+    else:
+        px = draw(frames(hi=2e5))
+        vg = draw(st.one_of(st.sampled_from([1.62e-10, 1.0]), st.floats(1e-12, 1.0)))
+        nt_list = draw(st.lists(st.one_of(st.just(0.0), st.floats(0.0, 200.0)), min_size=n, max_size=n))
+        sigma_list = draw(st.lists(st.one_of(st.just(0.0), st.floats(1e-20, 1e-12)), min_size=n, max_size=n))
+        fwc, t = draw(st.one_of(st.sampled_from([1e5, 1e7, 1.0]), st.floats(1.0, 1e7))), draw(st.one_of(st.sampled_from([9.4722e-4, 10.0]), st.floats(1e-6, 10.0)))
+        beta = draw(st.one_of(st.sampled_from([0.0, 1.0, 0.3, 0.37]), st.floats(0.0, 1.0)))
+        tr_list = draw(st.lists(st.floats(1e-6, 10.0), min_size=n, max_size=n))
+    return {"pixel": px, "regime": regime, "direction": direction, "beta": beta,
+            "tr": tr_list,
+            "nt": nt_list, "sigma": sigma_list, "fwc": fwc, "vg": vg, "t": t,
             "inject": draw(st.booleans()), "steps": draw(st.integers(1, 3)), "temperature": draw(st.sampled_from([100.0, 150.0, 300.0]))}
 
 
@@ -254,7 +283,7 @@ def body_cdm(case, rec):
     det.empty()
     px = make_frame(f, fwc=case["fwc"])
     det.pixel.array = px.copy()
-    rec.cls("model:cdm", f"cdm:{case['direction']}", f"species:{len(case['tr'])}")
+    rec.cls("model:cdm", f"cdm:{case['direction']}", f"species:{len(case['tr'])}", f"cdm:regime:{case.get('regime', 'nominal')}")
     rec.nt(bool(px.any()) and (len(case["tr"]) >= 2 or case["steps"] >= 2 or f["kind"] == "saturated"))
     total_in = float(px.sum())
     with rec.must_not_raise("model_failed"):
@@ -345,6 +374,6 @@ def plan(tier):
         Part(name="conversion", kind="gen", strategy=conversion_cases, examples=60 if q else 1000),
         Part(name="fullwell", kind="gen", strategy=fullwell_cases, examples=40 if q else 600),
         Part(name="ipc", kind="gen", strategy=ipc_cases, examples=30 if q else 400),
-        Part(name="cdm", kind="gen", strategy=cdm_cases, examples=60 if q else 1000),
+        Part(name="cdm", kind="gen", strategy=cdm_cases, examples=100 if q else 1500),
         Part(name="persistence", kind="gen", strategy=persistence_cases, examples=80 if q else 1500),
     ]
